@@ -33,6 +33,15 @@ func NewIOReader(reader io.Reader) ro.Observable[[]byte] {
 
 		for {
 			n, err := reader.Read(buf)
+			if n > 0 {
+				// io.Reader: the n > 0 bytes read are processed before the error is
+				// considered. Each chunk is a copy: buf is reused for the next Read and
+				// would otherwise overwrite a chunk the subscriber has already received.
+				chunk := make([]byte, n)
+				copy(chunk, buf[:n])
+				destination.NextWithContext(ctx, chunk)
+			}
+
 			if err != nil {
 				if err == io.EOF {
 					destination.CompleteWithContext(ctx)
@@ -41,7 +50,6 @@ func NewIOReader(reader io.Reader) ro.Observable[[]byte] {
 				}
 				break
 			}
-			destination.NextWithContext(ctx, buf[:n])
 		}
 
 		return func() {
